@@ -800,3 +800,126 @@ Proof.
   exists (defn "() ((_ a ...) '((a (a ...)) ...))"), (rd "(m 1 2)").
   split; [vm_compute; reflexivity|]. eexists. split; vm_compute; reflexivity.
 Qed.
+
+(* ======================================================================
+   Part 4: expand on ellipsis-free templates is the structural instantiation
+   (the list traversal and its fuel; the leaf case is a hypothesis discharged
+   below for identifiers that are not pattern variables)
+   ====================================================================== *)
+Section ExpandPlain.
+Variable ell : cell.
+Variable pat : pattern.
+Variable bs : bindings.
+Variable se : senv.
+Hypothesis Hell : is_symbol ell = true.
+
+(* leaves: every identifier other than the ellipsis expands, with any positive fuel and
+   without touching the cursors, to what the specification gives *)
+Hypothesis Hleaf : forall x, is_symbol x = true -> s_is_ell ell x = false ->
+  exists c, sinst ell x se = SOk c /\ forall f its, expand ell pat bs (S f) x its = Ok (Some c, its).
+
+Notation plain_ok := (tmpl_ok (fun _ => false) ell).
+
+Lemma sinst_plain : forall t1 rest, s_is_ell ell t1 = false -> starts_with_ell ell rest = false ->
+  sinst ell (CPair t1 rest) se = scons (sinst ell t1 se) (sinst ell rest se).
+Proof.
+  intros t1 rest H1 H2.
+  destruct rest; try (cbn [sinst]; rewrite H1; reflexivity).
+  simpl in H2.
+  change (sinst ell (CPair t1 (CPair rest1 rest2)) se) with
+    (if s_is_ell ell t1 then SRSpec.SErr else
+     if s_is_ell ell rest1 then
+       (if (match rest2 with CPair e2 _ => s_is_ell ell e2 | _ => false end) then SRSpec.SErr
+        else match drivers se t1 with
+             | [] => SRSpec.SErr
+             | ds => match common_len se ds with
+                     | None => SExcl
+                     | Some n => sapp (map (fun i => sinst ell t1 (project se ds i)) (seq 0 n)) (sinst ell rest2 se)
+                     end
+             end)
+     else scons (sinst ell t1 se) (sinst ell (CPair rest1 rest2) se)).
+  rewrite H1, H2. reflexivity.
+Qed.
+
+Lemma expand_plain : forall t, plain_ok false t = true ->
+  exists c, sinst ell t se = SOk c /\
+  forall f its, (2 * cell_size t <= f)%nat -> expand ell pat bs f t its = Ok (Some c, its).
+Proof.
+  induction t as [t IH] using cell_size_ind. intros Hok.
+  destruct t as [b|ch| |n|t1 rest|s|s|l| | |pr| |];
+    try (eexists; split; [reflexivity|]; intros f its Hf; destruct f; [simpl in Hf; lia|reflexivity]).
+  - (* a list: walk the chain *)
+    assert (Hchain : forall c, (cell_size c <= cell_size (CPair t1 rest))%nat -> is_pair c = true ->
+              plain_ok false c = true ->
+              exists cs, sinst ell c se = SOk cs /\ last_cdr cs = CNil /\
+              forall f v its, (2 * cell_size c <= S f)%nat ->
+                match elems c with
+                | t0 :: tit => expand_loop ell pat bs f t0 tit v its = Ok (Some (new_list (v ++ elems cs)), its)
+                | [] => True
+                end).
+    { induction c as [c IHc] using cell_size_ind. intros Hsz Hpc Hc.
+      destruct c as [| | | |a d| | | | | | | |]; try discriminate.
+      cbn [tmpl_ok] in Hc. apply andb_prop in Hc. destruct Hc as [Hna Hc].
+      apply negb_true_iff in Hna.
+      assert (Hcd : tmpl_ok (fun _ => false) ell false a = true /\ tmpl_ok (fun _ => false) ell true d = true
+                    /\ starts_with_ell ell d = false).
+      { destruct d as [| | | |e d'| | | | | | | |]; try (apply andb_prop in Hc; destruct Hc; auto).
+        destruct (s_is_ell ell e) eqn:Ee.
+        - exfalso. destruct (is_symbol a); simpl in Hc; discriminate.
+        - apply andb_prop in Hc. destruct Hc. simpl. auto. }
+      destruct Hcd as (Hoa & Hod & Hne).
+      destruct (IH a) as (ca & Hsa & Hea); [simpl in *; lia | exact Hoa |].
+      (* the rest of the chain: () or another pair *)
+      destruct d as [| | | |e d'| | | | | | | |]; try (simpl in Hod; discriminate).
+      + (* last element *)
+        exists (CPair ca CNil). split; [|split; [reflexivity|]].
+        * rewrite sinst_plain by (auto). rewrite Hsa. reflexivity.
+        * intros f v its Hf. cbn [elems]. destruct f; [simpl in Hf; lia|].
+          cbn [expand_loop peek_is]. rewrite Hea by (simpl in Hf; simpl; lia).
+          cbn [bind]. reflexivity.
+      + destruct (IHc (CPair e d')) as (cs & Hss & Hls & Hes); [simpl; lia | simpl in *; lia | reflexivity | |].
+        { (* the rest of a chain satisfies the same predicate with chain = false at a pair *)
+          cbn [tmpl_ok] in Hod |- *. exact Hod. }
+        exists (CPair ca cs). split; [|split; [exact Hls|]].
+        * rewrite sinst_plain by (auto). rewrite Hsa, Hss. reflexivity.
+        * intros f v its Hf. cbn [elems]. destruct f; [simpl in Hf; lia|].
+          cbn [expand_loop peek_is]. simpl in Hne. unfold s_is_ell in Hne. rewrite Hne.
+          rewrite Hea by (simpl in Hf; simpl; lia). cbn [bind].
+          specialize (Hes f (v ++ [ca]) its). cbn [elems] in Hes. rewrite Hes by (simpl in Hf; simpl; lia).
+          rewrite <- app_assoc. reflexivity. }
+    destruct (Hchain (CPair t1 rest)) as (cs & Hss & Hls & Hes); auto.
+    exists cs. split; [exact Hss|].
+    intros f its Hf. destruct f; [simpl in Hf; lia|].
+    change (expand ell pat bs (S f) (CPair t1 rest) its) with (expand_loop ell pat bs f t1 (elems rest) [] its).
+    specialize (Hes f [] its). cbn [elems] in Hes.
+    rewrite Hes by lia. simpl. rewrite new_list_elems by exact Hls. reflexivity.
+  - (* an identifier *)
+    cbn [tmpl_ok] in Hok. apply andb_prop in Hok. destruct Hok as [_ Hne]. apply negb_true_iff in Hne.
+    destruct (Hleaf (CSym s) eq_refl Hne) as (c & Hs & He).
+    exists c. split; [exact Hs|]. intros f its Hf. destruct f; [simpl in Hf; lia|]. apply He.
+  - (* a vector is outside the fragment *)
+    simpl in Hok. discriminate.
+Qed.
+End ExpandPlain.
+
+(* the two leaf cases of [expand_plain]'s hypothesis *)
+Lemma leaf_not_variable : forall ell pat bs se x, is_symbol x = true ->
+  is_variable pat x = false -> slookup se x = None ->
+  sinst ell x se = SOk x /\ forall f its, expand ell pat bs (S f) x its = Ok (Some x, its).
+Proof.
+  intros ell pat bs se x Hs Hv Hl. destruct x; simpl in Hs; try discriminate.
+  split.
+  - cbn [sinst]. rewrite Hl. reflexivity.
+  - intros f its. cbn [expand]. rewrite Hv. reflexivity.
+Qed.
+
+Lemma leaf_plain_variable : forall ell pat bs se x k v, is_symbol x = true ->
+  is_variable pat x = true -> is_expanded_variable pat x = false ->
+  find_binding bs x 0 = Some (k, v) -> slookup se x = Some (BOne v) ->
+  sinst ell x se = SOk v /\ forall f its, expand ell pat bs (S f) x its = Ok (Some v, its).
+Proof.
+  intros ell pat bs se x k v Hs Hv He Hf Hl. destruct x; simpl in Hs; try discriminate.
+  split.
+  - cbn [sinst]. rewrite Hl. reflexivity.
+  - intros f its. cbn [expand]. rewrite Hv. unfold get_binding. rewrite Hv, He. simpl. rewrite Hf. reflexivity.
+Qed.
